@@ -357,7 +357,8 @@ def run(pid, tier, seed, rule, assumptions, workers=16, confs=None, extra_sig=No
                                 invariants=["TypeOK", inv] + list(opts.get("invariants", [])))
         try:
             pay, stats = tlcrun.run_tlc(mod, cf, f"{pid}_{name}", workers=workers,
-                                        timeout=1800 if tier == "quick" else 7200)
+                                        timeout=2400 if tier == "quick" else 14400,
+                                        coverage=(tier == "thorough"))
         except tlcrun.TLCError as e:
             rep.machinery_errors.append(str(e)[-1500:])
             continue
